@@ -181,8 +181,9 @@ def deleteUpstream (s : State) (sh : Nat) (u : Ups) : State :=
 def getFlowControl (s : State) (sh : Nat) (u : Ups) (n : Str) : Option FC :=
   (s.fcs.find? fun r => r.1 == sh && r.2.1 == u && r.2.2.name == n).map (·.2.2)
 
-def putFC (fcs : List (Nat × Ups × FC)) (sh : Nat) (u : Ups) (f : FC) : List (Nat × Ups × FC) :=
-  fcs.filter (fun r => !(r.1 == sh && r.2.1 == u && r.2.2.name == f.name)) ++ [(sh, u, f)]
+/-- in-place update of the flow control stored under (store, cluster, name) (Go mutates the object the map points to). -/
+def mapFC (fcs : List (Nat × Ups × FC)) (sh : Nat) (u : Ups) (n : Str) (g : FC → FC) : List (Nat × Ups × FC) :=
+  fcs.map fun r => if r.1 == sh && r.2.1 == u && r.2.2.name == n then (r.1, r.2.1, g r.2.2) else r
 
 def specOf (s : State) (sh : Nat) (u : Ups) : List Schema :=
   ((s.clusters.find? fun r => r.1 == sh && r.2.1 == u).map (·.2.2)).getD []
@@ -207,10 +208,10 @@ def resizeFC (f : FC) (sc : Schema) : FC :=
 def syncOne (sh : Nat) (u : Ups) (fcs : List (Nat × Ups × FC)) (sc : Schema) : List (Nat × Ups × FC) :=
   if !sc.isGlobal then fcs else
   match (fcs.find? fun r => r.1 == sh && r.2.1 == u && r.2.2.name == sc.name).map (·.2.2) with
-  | none => putFC fcs sh u (newFC sc)
+  | none => fcs ++ [(sh, u, newFC sc)]
   | some f =>
-    if f.isMif != sc.gmif.isSome then putFC fcs sh u (newFC sc)   -- type changed: fresh flow control
-    else putFC fcs sh u (resizeFC f sc)
+    if f.isMif != sc.gmif.isSome then mapFC fcs sh u sc.name (fun _ => newFC sc)   -- type changed: fresh flow control
+    else mapFC fcs sh u sc.name (fun f => resizeFC f sc)
 
 /-- `SyncFlowControl` / `syncLocalFlowControls`. -/
 def syncFlowControl (s : State) (sh : Nat) (u : Ups) (schemas : List Schema) : State :=
@@ -330,8 +331,8 @@ def acquireOne (i : Inst) (rid : Int) (sh : Nat) (u : Ups) (s : State) (rq : Str
     if rq.2 < 0 then (s, (rq.1, false, 0, "negative"))
     else if !f.isMif then (s, (rq.1, false, 0, "tokenBucket"))   -- wall-clock rate limiter: outcome not modelled
     else
-      let (f', acc, latest, old) := setState f i rid rq.2
-      let s' := { s with fcs := putFC s.fcs sh u f' }
+      let (_, acc, latest, old) := setState f i rid rq.2
+      let s' := { s with fcs := mapFC s.fcs sh u rq.1 (fun f => (setState f i rid rq.2).1) }
       if old then (s', (rq.1, false, 0, "tooOld"))
       else if acc then (s', (rq.1, true, rq.2, ""))
       else (s', (rq.1, false, latest, ""))
